@@ -102,7 +102,10 @@ LagPos(p, nm) == CHOOSE i \in DOMAIN p.lagged : p.lagged[i].name = nm
 (* the generator refuses (NameError from ParseString, like the parser's reserved words) a block *)
 (* with a variable that would capture a name of the generated class                             *)
 BlockNames(b) == Range(NamesOf(b.endo)) \cup Range(NamesOf(b.lagged)) \cup Range(NamesOf(b.exos))
-Accepts(b) == AsFound_OwnNamesAccepted \/ BlockNames(b) \cap ModuleOwnNames = {}
+(* ... or the Iterator's local NEW_<v> of another variable v of the block *)
+NewCollision(names) == \E v \in names : ("NEW_" \o v) \in names
+Accepts(b) == AsFound_OwnNamesAccepted
+              \/ (BlockNames(b) \cap ModuleOwnNames = {} /\ ~NewCollision(BlockNames(b)))
 
 (* BaseSolver.CreateCsvString: 't' first when present, the rest in VariableList order *)
 HeaderOf(vl) ==
@@ -138,7 +141,8 @@ ClosedFile(f) ==
 (* of a block variable) comes between its initialisation and the loop                          *)
 LoopStateOwn(f) == f.loopAfterPack \/ Range(NamesOf(f.pack)) \cap LoopNames = {}
 (* no block variable captures a name of the generated class *)
-NoOwnNameCaptured(f) == Range(NamesOf(f.pack)) \cap ModuleOwnNames = {}
+NoOwnNameCaptured(f) == /\ Range(NamesOf(f.pack)) \cap ModuleOwnNames = {}
+                        /\ ~NewCollision(Range(NamesOf(f.pack)))
 
 (* import + SFCModel(): every declared series exists with its declared length *)
 NoModule == [status |-> "none", STEP |-> 0, lens |-> << >>, reads |-> << >>, resid |-> TRUE]
@@ -280,15 +284,17 @@ HeaderOk(h, names) ==
     /\ \A i \in DOMAIN h : Count(h, h[i]) = 1        \* whatever else is listed (the step index) is listed once
 C20_HeaderTimeFirst == HasFile => HeaderOk(file.header, NonLaggedOfBlock(parser))
 
-(* after a step every endogenous series has one more value; lags were read at STEP-1, exogenous at STEP *)
-AppendsAllOf(p, m) ==
+(* after a step every endogenous series - and every series the module keeps for a lagged variable that *)
+(* is lagged again - has exactly one more value; lags were read at STEP-1, exogenous at STEP            *)
+KeptSeries(p, f) == Range(NamesOf(p.endo)) \cup Range(NamesOf(f.unpack))
+AppendsAllOf(p, f, m) ==
     m.status = "ok" =>
-        /\ \A i \in DOMAIN p.endo : LenOf(m, p.endo[i].name) = m.STEP + 1
+        /\ \A nm \in KeptSeries(p, f) : LenOf(m, nm) = m.STEP + 1
         /\ \A i \in DOMAIN m.reads :
               /\ (m.reads[i].idx = "STEP-1" => m.reads[i].at = m.STEP - 1)
               /\ (m.reads[i].idx = "STEP"   => m.reads[i].at = m.STEP)
               /\ (m.reads[i].idx = "last"   => m.reads[i].at = m.STEP - 1)
-C20_StepAppendsAll == Stepped => AppendsAllOf(parser, mod)
+C20_StepAppendsAll == Stepped => AppendsAllOf(parser, file, mod)
 
 (* the values appended in a completed step satisfy the block's equations (residual flag) *)
 SatisfiesOf(m) == m.status = "ok" => m.resid
